@@ -26,7 +26,7 @@ def worker(case):
     T = core.unb64(case["T"])
     Bt = core.unb64(case["Bt"])     # the complete, correct target file (for its header / index)
     srcs = [core.unb64(s) for s in case["srcs"]]
-    cid = core.h8([case["name"], case["skinds"], case["mode"], case["reset"]])
+    cid = core.h8([case["name"], case["skinds"], case["mode"], case["reset"], case.get("pokes")])
     stats = {"evaluations": 1}
     try:
         pT = zckref.parse(Bt)
@@ -42,14 +42,26 @@ def worker(case):
         if case["reset"]:
             L.append("reset_failed 1")
         L.append("flags 1")
+        pokes = case.get("pokes") or [None] * len(srcs)
         for i, s in enumerate(srcs):
             files["src%d.zck" % i] = s
             L += ["fopen %d src%d.zck rw source" % (2 + i, i), "create %d" % (2 + i), "init_read %d %d" % (2 + i, 2 + i)]
+            if pokes[i]:
+                # the source is scanned while still intact, then damaged on disk behind the library's back
+                L += ["%s %d" % (pokes[i]["pre"], 2 + i)] + ["poke %d %d x:%s" % (2 + i, off, hx) for off, hx in pokes[i]["writes"]]
+                sb = bytearray(s)
+                for off, hx in pokes[i]["writes"]:
+                    b_ = bytes.fromhex(hx)
+                    sb[off:off + len(b_)] = b_
+                srcs[i] = bytes(sb)
         before_valid = None
+        if case["mode"] == "match-then-copy":
+            # source 0 vouches for source 1 by index only (zck_find_matching_chunks), then source 1 is copied from
+            L += ["match 2 3", "watch target WATCH", "copy 3 1", "watchstat", "watch - -", "flags 1"]
         for i in range(len(srcs)):
             if case["mode"] == "copy":
                 L += ["watch target WATCH", "copy %d 1" % (2 + i), "watchstat", "watch - -", "flags 1"]
-            else:
+            elif case["mode"] == "match":
                 L += ["match %d 1" % (2 + i), "flags 1"]
         L += ["iocounts"]
         # the watch extents depend on the flags the library reports; run once to learn them (fv only), then the real run
@@ -84,7 +96,7 @@ def worker(case):
             for e in rd.ev(ev="iocount"):
                 if e["cls"] == "source" and e["sys"] in ("write", "ftruncate") and e["n"]:
                     viol = ("c08:write-to-source", "%d %s calls on a source descriptor" % (e["n"], e["sys"]))
-            if case["mode"] == "copy" and not viol:
+            if case["mode"] in ("copy", "match-then-copy") and not viol:
                 ws = [e for e in rd.events if e.get("op") == "watchstat"]
                 stats["target_writes_observed"] = sum(e["writes"] for e in ws)
                 if any(e["oob"] for e in ws):
@@ -226,7 +238,7 @@ class C08(core.Check):
                 T = T[: r.randrange(pT.header_len, len(T) + 1)]
             srcs, kinds = [], []
             for _ in range(r.choice([1, 1, 2, 3])):
-                k = r.choice(["relative", "relative", "flipped", "truncated", "swapped-index", "other-dict", "other-hash", "other-comp", "uncomp-flag", "same", "unrelated"])
+                k = r.choice(["relative", "relative", "flipped", "truncated", "swapped-index", "bigger-stored", "other-dict", "other-hash", "other-comp", "uncomp-flag", "same", "unrelated"])
                 sp = list(pieces)
                 r.shuffle(sp)
                 sp = sp[: max(1, len(sp) * 2 // 3)] + [r.randbytes(r.randrange(1, 200)) for _ in range(2)]
@@ -259,6 +271,16 @@ class C08(core.Check):
                     c = r.choice(pS.chunks)
                     cut = pS.header_len + c["start"] + r.choice([-1, 0, 1, c["comp_len"] // 2])
                     S = S[: max(pS.header_len, min(len(S), cut))]
+                elif k == "bigger-stored" and pS.comp_type == 2 and len(pS.chunks) >= 2:
+                    # same checksum and size as listed, but the index claims MORE stored bytes than the chunk really has
+                    ch = [(c["digest"], c["udigest"], c["comp_len"], c["len"]) for c in pS.chunks]
+                    i1 = r.randrange(1, len(ch))
+                    extra = r.choice([1, 7, 300])
+                    c1 = pS.chunks[i1]
+                    ch[i1] = (ch[i1][0], ch[i1][1], ch[i1][2] + extra, ch[i1][3])
+                    body = S[pS.header_len:]
+                    cut = c1["start"] + c1["comp_len"]
+                    S = basefiles.rebuild(pS, S, chunks=ch, body=body[:cut] + r.randbytes(extra) + body[cut:], data_digest=pS.data_digest)
                 elif k == "swapped-index" and len(pS.chunks) >= 3:
                     ch = [(c["digest"], c["udigest"], c["comp_len"], c["len"]) for c in pS.chunks]
                     i1, i2 = r.sample(range(1, len(ch)), 2)
@@ -269,4 +291,21 @@ class C08(core.Check):
             for mode in (["copy", "match"] if i % 3 == 0 else [r.choice(["copy", "copy", "match"])]):
                 out.append({"name": "t%d-c%d-u%d-h%d" % (i, comp, uncomp, cht), "T": core.b64(T), "Bt": core.b64(Bt), "srcs": [core.b64(s) for s in srcs], "skinds": kinds,
                             "mode": mode, "reset": r.random() < 0.5, "zh": ctx["zh"]})
+            # multi-step: a source validated while intact and damaged afterwards; a damaged source vouched for by index matching
+            if i % 2 == 0:
+                good = zckref.make_file(pieces, comp_type=comp, dict_bytes=db, chunk_hash_type=cht, uncomp=uncomp)
+                pg = zckref.parse(good)
+                writes = []
+                for c in pg.chunks:
+                    if c["comp_len"] and r.random() < 0.7:
+                        off = pg.header_len + c["start"] + (c["comp_len"] - 1 if c["comp_len"] > 32768 else r.randrange(c["comp_len"]))
+                        writes.append((off, bytes([good[off] ^ 0x20]).hex()))
+                if writes:
+                    out.append({"name": "t%d-validated-then-damaged" % i, "T": core.b64(T), "Bt": core.b64(Bt), "srcs": [core.b64(good)], "skinds": ["validated-then-damaged"],
+                                "mode": "copy", "reset": r.random() < 0.5, "zh": ctx["zh"], "pokes": [{"pre": r.choice(["vc", "fv", "vd"]), "writes": writes}]})
+                    dmg = bytearray(good)
+                    for off, hx in writes:
+                        dmg[off] = bytes.fromhex(hx)[0]
+                    out.append({"name": "t%d-match-then-copy" % i, "T": core.b64(T), "Bt": core.b64(Bt), "srcs": [core.b64(good), core.b64(bytes(dmg))],
+                                "skinds": ["intact-voucher", "damaged-vouched"], "mode": "match-then-copy", "reset": r.random() < 0.5, "zh": ctx["zh"]})
         return out
